@@ -130,6 +130,10 @@ func cmdCheck(args []string) int {
 	}
 	t0 := time.Now()
 	pats := scanContractPackages(*repo, *prop)
+	idx := loadRcIndex(*verif)
+	if len(pats) == 0 && len(idx.Props[*prop]) > 0 {
+		return checkBoundedOnly(*verif, *repo, *prop, *tier, seed, idx, *noEvidence, t0)
+	}
 	if len(pats) == 0 {
 		fmt.Printf("VIOLATION property=%s replay=%s no-failing-input-found\n", *prop, "none(no contract files mention the property)")
 		return 1
@@ -183,6 +187,16 @@ func cmdCheck(args []string) int {
 			continue
 		}
 		jobs = append(jobs, job{k, c})
+	}
+	nLemmas := 0
+	for _, lm := range w.cs.Lemmas {
+		if hasProp(lm.Props, *prop) {
+			nLemmas++
+		}
+	}
+	if len(jobs)+nLemmas == 0 && len(idx.Props[*prop]) > 0 {
+		// only trusted contracts mention the property: it is decided by the bounded stand-in alone
+		return checkBoundedOnly(*verif, *repo, *prop, *tier, seed, idx, *noEvidence, t0)
 	}
 	// VC generation sequentially (shared World caches are not thread safe), solving in parallel
 	var results []*FuncResult
@@ -267,6 +281,29 @@ func cmdCheck(args []string) int {
 	var samples []interface{}
 	seenIDs := map[string]bool{}
 	vacuous := 0
+	// An ensures clause may assume the earlier clauses of the same return; it
+	// counts as discharged only if those are discharged as well.
+	verdictOf := map[string]string{}
+	for _, co := range all {
+		verdictOf[co.o.ID] = co.r.Verdict
+	}
+	for changed := true; changed; {
+		changed = false
+		for i := range all {
+			co := &all[i]
+			if co.r.Verdict != "unsat" || co.o.Negate {
+				continue
+			}
+			for _, d := range co.o.Deps {
+				if v, ok := verdictOf[d]; ok && v != "unsat" {
+					co.r.Verdict = "assumes-undischarged:" + d
+					verdictOf[co.o.ID] = co.r.Verdict
+					changed = true
+					break
+				}
+			}
+		}
+	}
 	for _, co := range all {
 		o, r := co.o, co.r
 		seenIDs[o.ID] = true
@@ -314,6 +351,15 @@ func cmdCheck(args []string) int {
 			fe.Obligations--
 			continue
 		}
+		if strings.HasPrefix(r.Verdict, "assumes-undischarged:") {
+			// proved only under an earlier clause that is itself not discharged: the
+			// failure is reported on that clause; this one is not counted
+			unclaimed = append(unclaimed, map[string]interface{}{"obligation": o.ID, "clause": o.Text, "at": o.PosStr, "verdict": r.Verdict})
+			nObl--
+			fe.Obligations--
+			fe.Unclaimed++
+			continue
+		}
 		if len(baseline) > 0 && !inList(baseline, o.ID) && !*strict {
 			// stated but not part of the claim (never discharged robustly on the pinned tree)
 			unclaimed = append(unclaimed, map[string]interface{}{"obligation": o.ID, "clause": o.Text, "at": o.PosStr, "verdict": r.Verdict})
@@ -359,11 +405,30 @@ func cmdCheck(args []string) int {
 		}
 	}
 	if *writeBaseline {
-		var ids []string
+		robust := map[string]bool{}
 		for _, co := range all {
 			if !co.o.Negate && co.r.Verdict == "unsat" && co.r.Seconds <= float64(secs)*0.3 {
-				ids = append(ids, co.o.ID)
+				robust[co.o.ID] = true
 			}
+		}
+		for changed := true; changed; {
+			changed = false
+			for _, co := range all {
+				if !robust[co.o.ID] {
+					continue
+				}
+				for _, d := range co.o.Deps {
+					if !robust[d] {
+						delete(robust, co.o.ID)
+						changed = true
+						break
+					}
+				}
+			}
+		}
+		var ids []string
+		for id := range robust {
+			ids = append(ids, id)
 		}
 		sort.Strings(ids)
 		os.MkdirAll(filepath.Dir(baselineFile), 0o755)
@@ -419,6 +484,17 @@ func cmdCheck(args []string) int {
 	for k, b := range byBackend {
 		backend[k] = map[string]interface{}{"decided": b.N, "total_s": round2(b.Total), "max_s": round2(b.Max)}
 	}
+	// bounded stand-ins registered for this property (separate block, never counted as discharged)
+	var bounded *boundedOutcome
+	if len(idx.Props[*prop]) > 0 {
+		knownB := map[string]Finding{}
+		for k, v := range known {
+			knownB[k] = v
+		}
+		bounded = runBounded(*verif, *repo, *prop, *tier, seed, idx, knownB)
+		violations = append(violations, bounded.Violations...)
+		knownLines = append(knownLines, bounded.KnownLines...)
+	}
 	level := "proof"
 	cov := map[string]interface{}{
 		"obligations":              nObl,
@@ -434,6 +510,9 @@ func cmdCheck(args []string) int {
 		"load_s":                   round2(loadS),
 		"vcgen_s":                  round2(genS),
 		"contract_files":           w.cs.Files,
+	}
+	if bounded != nil {
+		cov["bounded"] = bounded.Blocks
 	}
 	ev := Evidence{PropertyID: *prop, Tier: *tier, Seed: seed, Level: level, Coverage: cov, Assumptions: assumptions,
 		WallS: round2(time.Since(t0).Seconds()), Violations: len(violations)}
